@@ -71,3 +71,24 @@ func (p *Prog) ConstValue(short string) (string, bool) {
 	}
 	return c.Val().ExactString(), true
 }
+
+// ImportedConst resolves a constant of a package imported by `fromAlias`
+// (e.g. reflectwalk.MapKey seen from package audit) to its exact value.
+func (p *Prog) ImportedConst(fromAlias, importPath, name string) (string, bool) {
+	pk := p.Pkg(fromAlias)
+	if pk == nil {
+		return "", false
+	}
+	ip := pk.Imports[importPath]
+	if ip == nil || ip.Types == nil {
+		return "", false
+	}
+	c, ok := ip.Types.Scope().Lookup(name).(*types.Const)
+	if !ok {
+		return "", false
+	}
+	if c.Val().Kind() == constant.String {
+		return constant.StringVal(c.Val()), true
+	}
+	return c.Val().ExactString(), true
+}
